@@ -421,8 +421,12 @@ func crashExec(ops []string) (dops []string, res []string) {
 		t := strings.Split(op, " ")
 		switch t[0] {
 		case "open":
-			cfg = parseCfg(t)
-			r.bs = cfg.DataBlockByteThreshold
+			// open memthr bs l0target ratio immbuf maxImages nested lossy slow [skiplistMaxLevel skiplistP*100 fileMode]
+			cfg = parseCfg(t[:6])
+			if len(t) >= 13 {
+				cfg = parseCfg(append(append([]string{}, t[:6]...), t[10:13]...))
+			}
+			r.bs = cfgBlockSize(cfg)
 			r.maxImages, _ = strconv.Atoi(t[6])
 			nested, _ = strconv.Atoi(t[7])
 			lossy, _ = strconv.Atoi(t[8])
@@ -483,6 +487,13 @@ func crashExec(ops []string) (dops []string, res []string) {
 		case "reopen":
 			closeWatched(db, "crash suite, reopen")
 			db.VerifStopOracle()
+			if len(t) >= 5 {
+				// reopen with another configuration: memtable threshold, block size, L0 target, level ratio (zero = default);
+				// the crash images of the whole workload are recovered with the last configuration
+				a := func(i int) int { v, _ := strconv.Atoi(t[i]); return v }
+				cfg.MemtableByteThreshold, cfg.DataBlockByteThreshold, cfg.L0TargetNum, cfg.LevelRatio = a(1), a(2), a(3), a(4)
+				r.bs = cfgBlockSize(cfg)
+			}
 			db, err = originium.Open(r.dir, cfg)
 			if err != nil {
 				panic(err)
@@ -775,6 +786,10 @@ func crashGen(r *rand.Rand, n int, thorough bool) []Case {
 			closePending, manyTables = false, false
 			cfg = fmt.Sprintf("%d %d %d %d %d %d %d %d %d", 30+r.Intn(10), []int{20, 200}[r.Intn(2)], 1, 1, r.Intn(3), maxImg, nested, lossy, 0)
 		}
+		if c%4 == 1 {
+			// the skiplist shape and the directory mode from the whole valid range (zero = the default)
+			cfg += fmt.Sprintf(" %d %d %s", []int{0, 1, 2, 9, 32}[r.Intn(5)], []int{0, 1, 50, 99, 100}[r.Intn(5)], []string{"0", "700", "755"}[r.Intn(3)])
+		}
 		ops := []string{"open " + cfg}
 		nk := 3 + r.Intn(4)
 		ckeys := userKeys
@@ -822,7 +837,12 @@ func crashGen(r *rand.Rand, n int, thorough bool) []Case {
 				ops = append(ops, "sleep")
 			}
 			if r.Intn(8) == 0 {
-				ops = append(ops, "reopen")
+				if c%4 == 1 || r.Intn(3) == 0 {
+					ops = append(ops, fmt.Sprintf("reopen %d %d %d %d", []int{40, 60, 100, 200, 2000}[r.Intn(5)], []int{0, 1, 20, 200, 4096}[r.Intn(5)], []int{0, 1, 2, 3, 6}[r.Intn(5)], []int{0, 1, 2, 3}[r.Intn(4)]))
+					tags = append(tags, "reopen-with-another-configuration")
+				} else {
+					ops = append(ops, "reopen")
+				}
 				tags = append(tags, "reopen")
 			}
 		}
